@@ -55,12 +55,13 @@ class C05System(BuilderSystem):
         if self.bounded:
             g = st.g
             g.set_bounds("axes", (0, 0, -1), (4, 4, 1))
+            # distinct ranges: a value can violate exactly one of them
             g.set_bounds("feed-rate", 10, 100)
-            g.set_bounds("tool-power", 0, 100)
+            g.set_bounds("tool-power", 0, 60)
             g.set_bounds("tool-number", 1, 4)
             g.set_bounds("bed-temperature", 0, 100)
-            g.set_bounds("hotend-temperature", 0, 100)
-            g.set_bounds("chamber-temperature", 0, 100)
+            g.set_bounds("hotend-temperature", 0, 250)
+            g.set_bounds("chamber-temperature", 0, 70)
 
     def build_ops(self):
         return [
@@ -76,9 +77,12 @@ class C05System(BuilderSystem):
         for kind in ("move", "rapid", "move_absolute", "rapid_absolute", "set_axis"):
             for kw in ({"x": 99, "F": 50}, {"z": -7}, {"x": 1, "F": big}, {"x": 1, "S": big}, {"y": 1, "F": 50, "S": big},
                        {"x": NAN, "F": 50}, {"y": INF, "F": 50}, {"x": 1, "F": NAN}, {"x": 1, "F": 50, "E": NAN},
-                       {"x": 1, "S": -1}, {"x": 1, "F": -1}):
+                       {"x": 1, "S": -1}, {"x": 1, "F": -1},
+                       # out of range for one quantity but inside the range of the other one
+                       {"x": 1, "F": 50, "S": 80}, {"y": 1, "S": 80}, {"x": 1, "F": 5}, {"x": 1, "F": 5, "S": 30}):
                 ops.append([kind, [], kw])
-        for kw in ({"z": -7, "F": 50}, {"z": 0, "F": big}, {"z": NAN, "F": 50}, {"x": 1, "z": 0, "S": big}):
+        for kw in ({"z": -7, "F": 50}, {"z": 0, "F": big}, {"z": NAN, "F": 50}, {"x": 1, "z": 0, "S": big},
+                   {"z": 0, "F": 50, "S": 80}, {"z": 0, "F": 5}):
             ops.append(["probe", ["towards"], kw])
         ops.append(["probe", ["bogus"], {"z": 0}])
         ops.append(["auto_home", [], {"x": NAN}])
@@ -97,6 +101,9 @@ class C05System(BuilderSystem):
                 ["halt", ["wait-for-chamber"], {"s": big}], ["halt", ["wait-for-bed"], {"S": NAN}],
                 ["halt", ["bogus"]], ["halt", ["off"]], ["pause"], ["stop", [True]], ["wait"],
                 ["set_bed_temperature", [big]], ["set_hotend_temperature", [big]], ["set_chamber_temperature", [big]],
+                ["set_bed_temperature", [150]], ["set_chamber_temperature", [90]], ["halt", ["wait-for-bed"], {"S": 150}],
+                ["halt", ["wait-for-chamber"], {"R": 90}], ["set_tool_power", [80]], ["tool_on", ["clockwise", 80]],
+                ["power_on", ["dynamic", 80]], ["set_feed_rate", [5]],
                 ["set_bed_temperature", [NAN]],
                 ["sleep", [-1]], ["sleep", [NAN]], ["set_fan_speed", [300]], ["set_fan_speed", [10, -1]], ["set_fan_speed", [NAN]],
                 ["set_distance_mode", ["bogus"]], ["set_extrusion_mode", ["bogus"]], ["set_feed_mode", ["bogus"]],
